@@ -33,13 +33,16 @@ import cfggen
 import flow
 import mockca
 import vlib
+from ext import c10argv
 
 PY = sys.executable
 KEYS = ["VT_A", "VT_B", "VT_C", "VT_D", "VT_E", "VT_F"]
 VARS = ["identifier", "identifier_tls_alpn", "challenge", "file_name", "proof", "raw_proof", "is_clean_hook",
         "is_success", "status", "certificate_path", "private_key_path", "key_type", "file_directory", "file_path"]
 BASE_ARGS = (["%s={{ %s }}" % (v, v) for v in VARS] + ["identifiers={{ identifiers | join(',') }}"]
-             + ["env.%s={{ env.%s }}" % (k, k) for k in KEYS])
+             + ["env.%s={{ env.%s }}" % (k, k) for k in KEYS]
+             # positional elements, most of them EMPTY for any given event (py/ext/c10argv.py): the argv is judged as a vector
+             + c10argv.POSITIONAL)
 TYPED = {"post-operation": ["ifs={% if is_success %}T{% else %}F{% endif %}", "n={{ identifiers | length }}",
                             "each={% for i in identifiers %}[{{ i }}]{% endfor %}",
                             "not={% if not is_success %}N{% endif %}"],
@@ -258,7 +261,14 @@ def env_ops(case, records):
     return [dict(base, op="hooks_env")] + [dict(base, op="c10_env", observed=pairs(r["env"])) for r in records]
 
 
-def judge_call(ctx, case, res, pre_existing, records, mres):
+def argv_ops(case, records, mres, doc):
+    """Judge requests for the argument vectors of one case (Spec.C10Args.holds, py/ext/c10argv.py)."""
+    ev = expected_vars(case)
+    exp_env = {k: v for k, v in mres[0]["expected"]}
+    return [c10argv.op_for(r, case["type"], x["h"]["args"], doc[case["type"]], ev, exp_env) for x, r in zip(case["hooks"], records)]
+
+
+def judge_call(ctx, case, res, pre_existing, records, mres, doc=None, averdicts=None):
     ty = case["type"]
     robj = {"part": "x:call", "case": case, "impl": res}
     ctx.case({k: case[k] for k in ("mode", "type", "owner_env", "ident_env", "proc")} | {"hooks": [x["io"] for x in case["hooks"]]})
@@ -320,6 +330,10 @@ def judge_call(ctx, case, res, pre_existing, records, mres):
             if stray:
                 ctx.violation("hook %s has no stderr configured, yet %s was written" % (r["name"], stray), robj)
                 return
+        if doc is not None and not c10argv.judge(ctx, vlib.model, r, ty, x["h"]["args"], doc[ty], ev, exp_env,
+                                                 "hooks_call (%s, %s)" % (case["mode"], ty), robj, tag="x:call:argv",
+                                                 verdict=averdicts[n] if averdicts else None):
+            return
     if case["mode"] == "challenge":
         ctx.count("x:call:identifier:%s%s" % (case["me"][0], "-wildcard" if case["me"][5] else ""))
         if res.get("clean_type") != ty + "-clean":
@@ -371,8 +385,17 @@ def call_judge(ctx, ran, pre):
         spans.append((len(ops), len(ops) + len(o)))
         ops += o
     mres = vlib.model(ops) if ops else []
+    # the argument vectors (one judge request per recorder entry, all cases in one batch)
+    types = sorted(set(c["type"] for c, _ in ran))
+    doc = {t: d["vars"] for t, d in zip(types, vlib.model([{"op": "hooks_vars", "type": t} for t in types]))} if types else {}
+    aops, aspans = [], []
     for (c, r), records, (a, b) in zip(ran, recs, spans):
-        judge_call(ctx, c, r, pre, records, mres[a:b])
+        o = argv_ops(c, records, mres[a:b], doc) if [x["name"] for x in records] == [x["h"]["name"] for x in c["hooks"]] else []
+        aspans.append((len(aops), len(aops) + len(o)))
+        aops += o
+    ares = vlib.model(aops) if aops else []
+    for (c, r), records, (a, b), (a2, b2) in zip(ran, recs, spans, aspans):
+        judge_call(ctx, c, r, pre, records, mres[a:b], doc, ares[a2:b2])
 
 
 # =========================================================================================================
@@ -606,7 +629,7 @@ def two_cert_flow(ctx, root, rng, idx):
     helper.close()
     records = [r for r in flow.read_log(log) if r.get("kind") == "hook"]
     return {"dir": d, "rc": rc, "records": records, "env": env, "ios": ios, "owners": owners, "stderr": dmn.stderr()[-500:],
-            "idA": idA, "idB": idB, "spec": {"idx": idx}}
+            "idA": idA, "idB": idB, "spec": {"idx": idx}, "declared": {h["name"]: h["args"] for h in hooks}}
 
 
 def judge_two(ctx, r):
@@ -671,6 +694,17 @@ def judge_two(ctx, r):
                 if got != text:
                     ctx.violation("hook %s: %s (configuration file: %s) holds %r; the hook wrote %r" % (x["name"], member, io[member], got, text), robj)
                     return
+    # the argument vectors: what each record's data hold is read from the record itself, so only the NUMBER and the
+    # POSITIONS of the arguments (and the elements that are empty for the event's type) are judged here
+    tys = {x["name"]: x["name"].split("-", 1)[1] for x in r["records"]}
+    tlist = sorted(set(tys.values()))
+    doc = {t: d["vars"] for t, d in zip(tlist, vlib.model([{"op": "hooks_vars", "type": t} for t in tlist]))} if tlist else {}
+    judged = [(x, op) for x, op in ((x, c10argv.op_for(x, tys[x["name"]], r["declared"].get(x["name"]), doc[tys[x["name"]]], {}, None))
+                                   for x in r["records"]) if op is not None]
+    for (x, op), v in zip(judged, vlib.model([op for _, op in judged]) if judged else []):
+        if not c10argv.judge(ctx, vlib.model, x, tys[x["name"]], r["declared"].get(x["name"]), doc[tys[x["name"]]], {}, None,
+                             "two certificates in one daemon", robj, tag="x:two:argv", verdict=v):
+            return
     for (op, x, kind, o, oenv, ienv), v in zip(pending, vlib.model([p[0] for p in pending]) if pending else []):
         if not v["holds"]:
             ctx.violation("hook %s (%s of %s) ran with %s; layers: daemon %s, global %s, owner %s, identifier %s" % (
